@@ -146,6 +146,31 @@ def base_name(node):
     return node.id if isinstance(node, ast.Name) else None
 
 
+# name of a repo function -> index of the parameter its result may alias
+# (filled by the caller of alias_map for the module being analysed)
+RETURN_ALIAS: dict = {}
+
+
+def returns_alias_of(func):
+    """index of the parameter that a returned value may alias (a view or
+    the object itself), or None"""
+    ps = func_params(func)
+    if not ps:
+        return None
+    al = alias_map(func, {p: f"param:{p}" for p in ps})
+    for r in walk_no_nested(func, False):
+        if isinstance(r, ast.Return) and r.value is not None:
+            vals = r.value.elts if isinstance(r.value, ast.Tuple) else [
+                r.value]
+            for v in vals:
+                b = base_name(v) if isinstance(
+                    v, (ast.Name, ast.Subscript, ast.Attribute)) else None
+                if b in al and al[b].startswith("param:") and \
+                        freshness(v) in ("alias", "view"):
+                    return ps.index(al[b].split(":")[1])
+    return None
+
+
 def alias_map(func, roots):
     """local name -> root it may alias ('param:<p>' / 'elem:<p>'), following
     chains of aliasing assignments `a = b`, `a = b[k]`, `a = b.attr`,
@@ -217,6 +242,12 @@ def _alias_source(val, al):
                 b = base_name(a)
                 if b in al:
                     return al[b]
+        if isinstance(val.func, ast.Name) and val.func.id in RETURN_ALIAS:
+            i = RETURN_ALIAS[val.func.id]
+            if i < len(val.args):
+                b = base_name(val.args[i])
+                if b in al:
+                    return al[b]
         if isinstance(val.func, ast.Attribute) and val.func.attr in (
                 "items", "values", "keys", "get", "reshape", "ravel",
                 "view", "squeeze", "__getitem__"):
@@ -282,6 +313,15 @@ def mutations(func, al):
         elif isinstance(n, ast.Delete):
             for t in n.targets:
                 out.extend(_store(t, al))
+        elif isinstance(n, ast.Call) and any(
+                kw.arg in ("out", "output") and base_name(kw.value) in al
+                for kw in n.keywords):
+            # numpy/scipy write their result into `out=` / `output=`
+            kw = [k for k in n.keywords if k.arg in ("out", "output")][0]
+            src = al[base_name(kw.value)]
+            if not (src.startswith(("shallowof:", "holds:"))):
+                out.append((n, src.split(":")[-1],
+                            f"{kw.arg}={norm(kw.value)} in {norm(n)[:60]}"))
         elif isinstance(n, ast.Call) and isinstance(n.func, ast.Attribute) \
                 and n.func.attr in MUT_METHODS:
             b = base_name(n.func.value)
